@@ -207,13 +207,15 @@ def run_check(chk, tier, seed, replay=None):
         evaluations += d["evaluations"]
         nt = 0
         kinds = {}
+        stateful = "reset" in d["ops"]
         for o, a in zip(d["ops"], d["impl"]):
             if o == "reset":
                 continue
             k = o.split("\t", 1)[0] + ("" if st.nontrivial(o, a) else ":trivial")
             kinds[k] = kinds.get(k, 0) + 1
             if st.nontrivial(o, a):
-                h = hash(st.distinct_key(o, a))
+                # stateful streams: short op lines recur in different states, so the observation is part of the key
+                h = hash(st.distinct_key(o, a) + (("\t=>\t" + a) if stateful else ""))
                 if (sname, h) not in distinct:
                     distinct.add((sname, h)); nt += 1
         concrete += eval_predicates(st, d["ops"], d["impl"])
